@@ -175,6 +175,13 @@ class DeepONetDataset_Unique(torch.utils.data.Dataset):
         self.branch_batch_size = (
             len(self.branch_data_points) if branch_batch_size < 0 else branch_batch_size
         )
+        # a batch can not be larger than the data set
+        self.trunk_batch_size = min(
+            self.trunk_batch_size, len(self.trunk_data_points[0])
+        )
+        self.branch_batch_size = min(
+            self.branch_batch_size, len(self.branch_data_points)
+        )
 
         self.branch_space = branch_space
         self.trunk_space = trunk_space
@@ -208,7 +215,7 @@ class DeepONetDataset_Unique(torch.utils.data.Dataset):
             The index of the desired point.
         """
         # frist slice in branch dimension (dim 0):
-        branch_idx = int(idx / self.branch_batch_len)
+        branch_idx = idx // self.trunk_batch_len
         a = (branch_idx * self.branch_batch_size) % len(self.branch_data_points)
         b = ((branch_idx + 1) * self.branch_batch_size) % len(self.branch_data_points)
         if a < b:
